@@ -74,8 +74,10 @@ func (o *Out) Decl(format string, a ...any) { fmt.Fprintf(o.hist, format+"\n", a
 
 // Cmd writes a history line and the implementation's answer to it (exactly one line)
 func (o *Out) Cmd(cmd string, answer string) {
-	o.hist.WriteString(cmd)
-	o.hist.WriteByte('\n')
+	if cmd != "" { // an empty cmd: a second answer line of the previous command
+		o.hist.WriteString(cmd)
+		o.hist.WriteByte('\n')
+	}
 	o.impl.WriteString(answer)
 	o.impl.WriteByte('\n')
 	o.nCmd++
